@@ -1,54 +1,16 @@
+(* C04_camel_agrees: apply_to_field(CamelCase) as called (Model/C04Case.v camel_b, with its
+   [..1] / [1..] slices) agrees with Tauri's word-splitting rule (Spec/C04TauriCase.v tauri_camel)
+   on names over [a-z0-9_] that contain a non-underscore. *)
 From Coq Require Import String Ascii.
 From Coq Require Import List Arith Lia Bool NArith.
 Import ListNotations.
 Local Open Scope list_scope.
 Local Open Scope char_scope.
 
-Definition str := list ascii.
-Definition is_us (c : ascii) : bool := Ascii.eqb c "_".
-Definition is_lower (c : ascii) : bool := (97 <=? N_of_ascii c)%N && (N_of_ascii c <=? 122)%N.
-Definition is_upper (c : ascii) : bool := (65 <=? N_of_ascii c)%N && (N_of_ascii c <=? 90)%N.
-Definition upper (c : ascii) : ascii := if is_lower c then ascii_of_N (N_of_ascii c - 32) else c.  (* to_ascii_uppercase *)
-Definition lower (c : ascii) : ascii := if is_upper c then ascii_of_N (N_of_ascii c + 32) else c.  (* to_ascii_lowercase *)
+Require Import TT.Model.Str TT.Model.C04Case TT.Model.C04Model TT.Spec.C04TauriCase.
 
-(* ---- model: serde-rename-rule's apply_to_field, PascalCase and CamelCase ---- *)
-Fixpoint pascal (cap : bool) (s : str) : str :=
-  match s with
-  | [] => []
-  | c :: s' => if is_us c then pascal true s'
-               else if cap then upper c :: pascal false s' else c :: pascal false s'
-  end.
-Inductive outcome (A : Type) := Panic | Ok (a : A).
-Arguments Panic {A}. Arguments Ok {A} _.
-Definition is_cont (b : ascii) : bool := (128 <=? N_of_ascii b)%N && (N_of_ascii b <? 192)%N.
-(* pascal[..1].to_ascii_lowercase() + &pascal[1..] *)
-Definition camel_b (s : str) : outcome str :=
-  match pascal true s with
-  | [] => Panic                                        (* [..1] out of range *)
-  | c :: rest => match rest with
-                 | r :: _ => if is_cont r then Panic else Ok (lower c :: rest)   (* 1 is not a char boundary *)
-                 | [] => Ok [lower c]
-                 end
-  end.
-
-(* ---- spec: Tauri's rule (heck lowerCamelCase on snake_case names): split on '_', drop empty
-        words, capitalise every word but the first ---- *)
-Fixpoint words_go (cur : str) (s : str) : list str :=
-  match s with
-  | [] => match cur with [] => [] | _ => [rev cur] end
-  | c :: s' => if is_us c then match cur with [] => words_go [] s' | _ => rev cur :: words_go [] s' end
-               else words_go (c :: cur) s'
-  end.
-Definition words (s : str) : list str := words_go [] s.
-Definition capw (w : str) : str := match w with [] => [] | c :: r => upper c :: r end.
-Definition tauri_camel (s : str) : str :=
-  match words s with [] => [] | w :: ws => w ++ concat (map capw ws) end.
-
-Definition snake_char (c : ascii) : bool :=
-  is_us c || is_lower c || ((48 <=? N_of_ascii c)%N && (N_of_ascii c <=? 57)%N).
-
-Eval vm_compute in (camel_b (list_ascii_of_string "a__b_1c_"), tauri_camel (list_ascii_of_string "a__b_1c_"),
-                    camel_b (list_ascii_of_string "__")).
+Lemma snake_char_unfold c : snake_char c = is_us c || is_lower c || ((48 <=? N_of_ascii c)%N && (N_of_ascii c <=? 57)%N).
+Proof. reflexivity. Qed.
 
 (* pascal in terms of words *)
 Lemma pascal_words : forall s cur,
